@@ -320,8 +320,8 @@ func runC14(c *vk.Ctx) {
 		"Judged: no dead or stuck child; readers after every batch equal the model of applied batches (errored safe batches count as applied); persister/merger faults surface through AsyncError and, in safe mode, through the waiting Batch; the batch issued after the fault cleared is acknowledged; every boundary crash image of the faulty trace recovers to a state >= the last acknowledged batch. distinct non-trivial = distinct (operation, role, item kind, mode, transient/sticky, safe/unsafe) placements whose fault really fired")
 	c.Assume("faults are injected at the Directory interface (the os-level variants of a failing Sync/Close are equivalent for bluge to 'Persist failed after the full write', and C13 covers the directory's own behaviour)",
 		"progress: a child whose workload does not finish within 45 s is reported with its goroutine dump (wall clock; the workload needs well under a second)")
-	nHist := c.Pick(3, 12)
-	perHist := c.Pick(60, 400)
+	nHist := c.Pick(3, 10)
+	perHist := c.Pick(60, 200)
 	for h := 0; h < nHist; h++ {
 		seed := vk.SubSeed(c.Seed, fmt.Sprintf("c14-%d", h))
 		unsafe := h%3 == 2
